@@ -52,6 +52,11 @@ CLAIMED.update({
    text='Chain length = L1 distance + 1, first entry = origin cell, each step moves one face-adjacent cell along the axis of the smallest crossing parameter (ties: second axis), traversal state after cast(end) is a function of grid, origin and end only (history independence); geometric invariant established by setEndPoint and preserved by next(): the ray stays in the closed current cell until the crossing parameter and the crossing point lies in the next cell, so every listed cell is crossed by the segment.',
    note=TB_A + '; ' + TB_B + '; RayCasting<double,2> only; the clause "ends in the end cell after L1 steps without leaving the grid" is NOT decided (native replay only)', ref='DESIGN.md 4 (C14)'),
 })
+CLAIMED.update({
+ 'C19': dict(cat='proof', technique='lock-discipline contracts on the real methods (ghost held-flag for std::lock_guard, ownership map mutex -> fields) proved per method by CBMC dfcc; data-race freedom for all schedules then follows from the lockset theorem (stated, not machine-checked)',
+   text='Every access to mutex-owned state in every public method of SharedVariable, SharedOptionalVariable, OnlineAverage, OnlineVariance, RateMonitoring, Checkup*, CheckupReliability, CheckupRate happens with the owning mutex held; helpers are only called with it held; one critical section per call; no reference to owned state escapes; consume() returns and empties the slot atomically.',
+   note=TB_A + '; the step from per-method lock discipline to "no data race and sequentially consistent values in every schedule" is the standard lockset/atomicity theorem, stated as trusted; construction/configuration assumed single-threaded', ref='DESIGN.md 4 (C19)'),
+})
 NA = {}
 def main():
     props = [json.loads(l) for l in open(os.path.join(V, 'properties.jsonl'))]
